@@ -157,18 +157,18 @@ func runGateCase(tw *trace.W, st *stats, id string, count, nw int, ops []gateOp,
 		tw.Op("%s", o.String())
 		tw.Obs("%s", obs)
 		st.Steps++
-		st.inc("op:" + o.kind)
+		st.Inc("op:" + o.kind)
 		if ret == "integrity" {
-			st.inc("ret:integrity")
+			st.Inc("ret:integrity")
 			nontrivial = true
 		}
 		_, parked, done := p.counts()
 		if parked > 0 {
-			st.inc("obs:some-parked")
+			st.Inc("obs:some-parked")
 			nontrivial = true
 		}
 		if done > 0 {
-			st.inc("obs:some-done")
+			st.Inc("obs:some-done")
 		}
 		h = fnv(h, o.String()+"|"+obs)
 	}
@@ -176,7 +176,7 @@ func runGateCase(tw *trace.W, st *stats, id string, count, nw int, ops []gateOp,
 	g.CancelWithError(nil)
 	p.settle()
 	st.Cases++
-	st.mark(h, nontrivial)
+	st.Mark(h, nontrivial)
 	return true
 }
 
@@ -185,19 +185,18 @@ func gateCmd(args []string) int {
 	c := commonFlags(fs)
 	maxlen := fs.Int("maxlen", 40, "max ops per case")
 	exhaustive := fs.Int("exhaustive", 0, "if >0: enumerate all sequences of this length over a fixed alphabet")
-	replay := fs.String("replay", "", "replay the ops of this trace file instead of generating")
 	_ = fs.Parse(args)
-	tw, err := trace.Create(c.out)
+	tw, err := trace.Create(c.Out)
 	if err != nil {
 		fmt.Fprintln(os_stderr(), err)
 		return 2
 	}
 	defer tw.Close()
 	st := newStats()
-	if *replay != "" {
-		for _, rc := range readCases(*replay) {
+	if c.Replay != "" {
+		for _, rc := range readCases(c.Replay) {
 			var ops []gateOp
-			for _, ws := range rc.ops {
+			for _, ws := range rc.Ops {
 				o := gateOp{kind: ws[0]}
 				if len(ws) > 1 {
 					if ws[1] == "nil" {
@@ -208,13 +207,13 @@ func gateCmd(args []string) int {
 				}
 				ops = append(ops, o)
 			}
-			runGateCase(tw, st, rc.id, atoiDef(rc.init, 0, 1), atoiDef(rc.init, 1, 0), ops, nil)
+			runGateCase(tw, st, rc.ID, atoiDef(rc.Init, 0, 1), atoiDef(rc.Init, 1, 0), ops, nil)
 		}
-		st.write(c.stats)
+		st.Write(c.Stats)
 		return 0
 	}
-	r := rng.New(c.seed)
-	for k := 0; k < c.cases; k++ {
+	r := rng.New(c.Seed)
+	for k := 0; k < c.Cases; k++ {
 		cr := r.Fork()
 		count := []int{0, 1, 1, 2, 2, 3, 4, 65535}[cr.Intn(8)]
 		nw := cr.Intn(5)
@@ -259,7 +258,7 @@ func gateCmd(args []string) int {
 		}
 		st.Notes = append(st.Notes, fmt.Sprintf("exhaustive: all %d sequences of length %d over a %d-op alphabet, counts 1 and 2, 2 waiters", n, *exhaustive, len(alpha)))
 	}
-	st.write(c.stats)
+	st.Write(c.Stats)
 	return 0
 }
 
@@ -399,9 +398,8 @@ func flowCmd(args []string) int {
 	c := commonFlags(fs)
 	maxlen := fs.Int("maxlen", 40, "max ops per case")
 	which := fs.String("which", "init", "init|invoke")
-	replay := fs.String("replay", "", "replay the ops of this trace file instead of generating")
 	_ = fs.Parse(args)
-	tw, err := trace.Create(c.out)
+	tw, err := trace.Create(c.Out)
 	if err != nil {
 		fmt.Fprintln(os_stderr(), err)
 		return 2
@@ -414,22 +412,22 @@ func flowCmd(args []string) int {
 		mk = newInvokeFlowAPI
 		pre = "vf"
 	}
-	if *replay != "" {
-		for _, rc := range readCases(*replay) {
-			nw := atoiDef(rc.init, 0, 1)
-			runFlowCase(tw, st, nil, rc.id, nw, 0, mk(), rc.ops)
+	if c.Replay != "" {
+		for _, rc := range readCases(c.Replay) {
+			nw := atoiDef(rc.Init, 0, 1)
+			runFlowCase(tw, st, nil, rc.ID, nw, 0, mk(), rc.Ops)
 		}
-		st.write(c.stats)
+		st.Write(c.Stats)
 		return 0
 	}
-	r := rng.New(c.seed ^ 0xf10f)
-	for k := 0; k < c.cases; k++ {
+	r := rng.New(c.Seed ^ 0xf10f)
+	for k := 0; k < c.Cases; k++ {
 		cr := r.Fork()
 		nw := 1 + cr.Intn(3)
 		n := 1 + cr.Intn(*maxlen)
 		runFlowCase(tw, st, cr, fmt.Sprintf("%s%d", pre, k), nw, n, mk(), nil)
 	}
-	st.write(c.stats)
+	st.Write(c.Stats)
 	return 0
 }
 
@@ -527,15 +525,15 @@ func runFlowCase(tw *trace.W, st *stats, r *rng.R, id string, nw, n int, api *fl
 		tw.Op("%s", op)
 		tw.Obs("%s", obs)
 		st.Steps++
-		st.inc("op:" + firstWord(op))
+		st.Inc("op:" + firstWord(op))
 		if ret == "integrity" {
-			st.inc("ret:integrity")
+			st.Inc("ret:integrity")
 			nontrivial = true
 		}
 		for _, p := range pools {
 			if _, parked, _ := p.counts(); parked > 0 {
 				nontrivial = true
-				st.inc("obs:some-parked")
+				st.Inc("obs:some-parked")
 				break
 			}
 		}
@@ -544,7 +542,7 @@ func runFlowCase(tw *trace.W, st *stats, r *rng.R, id string, nw, n int, api *fl
 	api.release()
 	settle()
 	st.Cases++
-	st.mark(h, nontrivial)
+	st.Mark(h, nontrivial)
 	if st.Cases <= 2 {
 		st.Samples = append(st.Samples, fmt.Sprintf("%s waiters/gate=%d len=%d", id, nw, steps))
 	}
@@ -566,15 +564,15 @@ func threadCmd(args []string) int {
 	c := commonFlags(fs)
 	maxlen := fs.Int("maxlen", 30, "max ops per case")
 	_ = fs.Parse(args)
-	tw, err := trace.Create(c.out)
+	tw, err := trace.Create(c.Out)
 	if err != nil {
 		fmt.Fprintln(os_stderr(), err)
 		return 2
 	}
 	defer tw.Close()
 	st := newStats()
-	r := rng.New(c.seed ^ 0x7ead)
-	for k := 0; k < c.cases; k++ {
+	r := rng.New(c.Seed ^ 0x7ead)
+	for k := 0; k < c.Cases; k++ {
 		cr := r.Fork()
 		nw := 1 + cr.Intn(3)
 		n := 1 + cr.Intn(*maxlen)
@@ -620,10 +618,10 @@ func threadCmd(args []string) int {
 			tw.Op("%s", op)
 			tw.Obs("%s", obs)
 			st.Steps++
-			st.inc("op:" + firstWord(op))
+			st.Inc("op:" + firstWord(op))
 			if parked > 0 {
 				nontrivial = true
-				st.inc("obs:some-parked")
+				st.Inc("obs:some-parked")
 			}
 			h = fnv(h, op+"|"+obs)
 		}
@@ -632,11 +630,11 @@ func threadCmd(args []string) int {
 			p.settle()
 		}
 		st.Cases++
-		st.mark(h, nontrivial)
+		st.Mark(h, nontrivial)
 		if k < 2 {
 			st.Samples = append(st.Samples, fmt.Sprintf("%s waiters=%d len=%d", id, nw, n))
 		}
 	}
-	st.write(c.stats)
+	st.Write(c.Stats)
 	return 0
 }
